@@ -405,4 +405,4 @@ def run_shard(ctx):
 def replay(ctx, case):
     if case.get("deref_component"):
         return replay_deref_component(ctx, case)
-    drive.replay_dsl(ctx, case, QUIRKS, classify)
+    drive.replay_dsl(ctx, case, QUIRKS, classify, allow_any_order_defs=True)
